@@ -12,7 +12,7 @@ import ast
 
 from . import AnalysisError
 from .compare import HASHABLE, type_names_of
-from .terms import C, CallT, Elem, Fresh, G, is_call, is_const, is_lit, string_leaves
+from .terms import is_param_rooted, C, CallT, Elem, Fresh, G, is_call, is_const, is_lit, string_leaves
 from .walker import CONTAINERS, JSON_TYPES, NUM, Exc, _ATTRS
 
 ED_PUB = "obj:cryptography.hazmat.primitives.asymmetric.ed25519.Ed25519PublicKey"
@@ -451,7 +451,14 @@ def b_print(c):
     s1 = c.s.copy()
     s1.ev("print", c.site, tuple(leaves), tuple(unsafe))
     if unsafe and to_stream:
-        c.rz("UnicodeEncodeError", "print of text that may not be encodable on stdout", [], pure=False)
+        for lf in unsafe:
+            # (conditional on the piece not being validated hexadecimal text, so that a caller of a
+            # helper that prints its argument can refute it with what it knows about the argument)
+            inner = lf
+            while is_call(inner, ("builtin:str", "builtin:format")) and inner[2]:
+                inner = inner[2][0]
+            conds = [("notok", CallT("ext:bytes.fromhex", [inner]))] if is_param_rooted(inner) and not is_const(inner) else []
+            c.rz("UnicodeEncodeError", "print of text that may not be encodable on stdout", conds, pure=False)
     c.ret(C(None), pure=False, state=s1)
 
 
@@ -603,6 +610,26 @@ def apply_new(w, e, cls_qualname, args, kwargs, s):
         return c.outs
     if short in w.prog.exc_parents():
         c.ret(("excobj", short), pure=False)
+    elif ci is not None and all(b and b[0] == "builtin" and b[1] == "object" for b in ci.bases) and not ci.node.decorator_list:
+        # a plain class of the repository: a fresh object whose attributes are tracked in the path
+        # state; __init__ (if any) runs on it
+        from .calls import apply_repo
+
+        obj = ("obj", cls_qualname, c.site)
+        init = w.prog.find_method(cls_qualname, "__init__")
+        if init is None or init[0] != "repo":
+            if args or kwargs:
+                c.rz("TypeError", "%s() takes no arguments" % short)
+            else:
+                c.ret(obj, ("type", obj, frozenset(["obj:" + cls_qualname])))
+            return c.outs
+        for s2, k2, p2 in apply_repo(w, e, init[1], None, (obj,) + tuple(args), kwargs, s):
+            if k2 == "val":
+                s2 = s2.copy()
+                s2.add(("type", obj, frozenset(["obj:" + cls_qualname])))
+                c.outs.append((s2, "val", obj))
+            else:
+                c.outs.append((s2, k2, p2))
     else:
         c.ret(None, ("type", c.term, frozenset(["obj:" + cls_qualname])), pure=False)
     return c.outs
